@@ -6,6 +6,7 @@ R13.2  grouping agreement: MocksEmitter groups operations by tag exactly like En
 R13.3  mock bodies raise: every path of _transform_to_mock that writes a `def` writes `raise NotImplementedError(`
 R13.4  naming agreement: client class / module / Protocol / mock class names are derived from the canonical tag by the
        same functions in all six places
+R13.8  no function of visit/endpoint changes its IROperation (or an alias of one of its attributes) in place: the three renderings see one operation
 R13.7  an instance-level memo table in the visit/endpoint generators is keyed by every parameter its value is computed from
 R13.6  a consumer that reads the nature from the one line closing a rendered signature obliges CodeWriter.write_function_signature to put the
        whole return annotation on that line (producer/consumer contract; not armed when every consumer joins the signature lines)
@@ -194,6 +195,7 @@ def run(repo: Repo, rep: Report, tier: str) -> None:
                               f"the decision text derives from the IR ({from_ir}) instead of the rendered signature", fn.loc(t))
 
     rule_memo_keys(repo, rep, "R13.7")
+    rule_ir_not_mutated(repo, rep, "R13.8")
     # ---------------------------------------------------------------- R13.6 one-line sniffing obliges the signature writer
     # A consumer that looks for the return annotation in ONE rendered line (the line that closes the signature) relies on the
     # signature writer putting the whole annotation on that line; a consumer that joins the collected lines does not.
@@ -406,3 +408,60 @@ def rule_memo_keys(repo: Repo, rep: Report, rule: str = "R13.7") -> None:
     if not n_bad:
         rep.ok(rule, "visit/endpoint generator and processor classes", f"{n_cls} classes, {n_tab} instance-level memo table(s): every memo key covers the parameters "
                "the value is computed from", "src/pyopenapi_gen/visit/endpoint:1")
+
+
+# ------------------------------------------------------------------------------------------------ R13.8 rendering does not mutate the IR
+def rule_ir_not_mutated(repo: Repo, rep: Report, rule: str = "R13.8") -> None:
+    """Client method, Protocol stub and mock method are three separate renderings of one IROperation.  They agree only if a rendering
+    leaves the operation as it found it: in the visit/endpoint package no function changes an object reached from its IROperation
+    parameter in place (sort / append / item or attribute assignment on `op.<attr>` or on a local that is an alias of it)."""
+    MUT = ("sort", "append", "extend", "insert", "pop", "remove", "reverse", "clear", "update", "setdefault", "popitem", "add", "discard")
+    n_fn = 0
+    bad = []
+    for m in repo.modules.values():
+        if ".visit.endpoint." not in "." + m.name + ".":
+            continue
+        for q, fn in m.functions.items():
+            a = fn.node.args  # type: ignore[attr-defined]
+            ops = [x.arg for x in a.posonlyargs + a.args + a.kwonlyargs if x.annotation is not None and "IROperation" in norm(x.annotation)]
+            if not ops:
+                continue
+            n_fn += 1
+            L = Locals(fn.node)
+
+            def rooted(e: ast.AST) -> Optional[str]:
+                """the IROperation parameter `e` is an alias path of (attribute chain, no call / copy in between)"""
+                cur = e
+                depth = 0
+                for _ in range(6):
+                    while isinstance(cur, (ast.Attribute, ast.Subscript)):
+                        cur = cur.value
+                        depth += 1
+                    if isinstance(cur, ast.Name) and cur.id not in L.params:
+                        ds = L.defs.get(cur.id, [])
+                        # an alias: every binding of the local is a plain attribute path (no call, no copy)
+                        if ds and all(k == "assign" and isinstance(v, (ast.Attribute, ast.Subscript, ast.Name)) for k, v, _ in ds) and len(ds) == 1:
+                            cur = ds[0][1]
+                            continue
+                    break
+                if isinstance(cur, ast.Name) and cur.id in ops and depth >= 1:
+                    return cur.id
+                return None
+
+            for n in own_nodes(fn.node):
+                if isinstance(n, ast.Call) and isinstance(n.func, ast.Attribute) and n.func.attr in MUT and rooted(n.func.value):
+                    bad.append((m, fn, n))
+                elif isinstance(n, (ast.Assign, ast.AugAssign, ast.AnnAssign, ast.Delete)):
+                    tgs = n.targets if isinstance(n, (ast.Assign, ast.Delete)) else [n.target]
+                    for t in tgs:
+                        if isinstance(t, (ast.Attribute, ast.Subscript)) and (rooted(t.value) or (isinstance(t.value, ast.Name) and t.value.id in ops)):
+                            bad.append((m, fn, n))
+    rep.count(f"{rule}:functions_with_operation_parameter", n_fn)
+    rep.require(n_fn >= 15, f"{rule}: only {n_fn} functions taking an IROperation found under visit/endpoint (floor 15)")
+    for m, fn, n in bad:
+        rep.violation(rule, f"{m.relpath}:{fn.qualname} mutates its operation", f"{fn.fq}|ir-mutated|{n.__class__.__name__}",
+                      f"`{norm(n)[:70]}` changes the IROperation in place while rendering: the next rendering of the same operation (Protocol stub, mock) sees a "
+                      "different operation - e.g. after sorting `responses` the fallback 'first declared response' is another one and the return annotations differ",
+                      fn.loc(n))
+    if not bad:
+        rep.ok(rule, "visit/endpoint", f"{n_fn} functions receive an IROperation; none changes it (or an alias of one of its attributes) in place", "src/pyopenapi_gen/visit/endpoint:1")
